@@ -225,3 +225,77 @@ pub fn cache(toks: &[&str]) -> String {
         out.join(";")
     })
 }
+
+fn show_domain(d: &dnspkt::Domain) -> String {
+    // Display joins labels with '.', bytes outside 32..=127 as \ddd: suffixes come from ASCII config text
+    let s = d.to_string();
+    if s.is_empty() { "-".into() } else { s.split('.').map(|l| hex(l.as_bytes())).collect::<Vec<_>>().join(".") }
+}
+
+/// `route cfg=<hex yaml> q=<labels> rd=<0|1>`: the real router -> cache -> outquery chain with
+/// fake upstreams on 127.0.0.N:53 in a private network namespace
+pub fn route(toks: &[&str]) -> String {
+    crate::rig::ensure_netns();
+    let conf = match crate::s_dhcp::load(kv(toks, "cfg")) {
+        Ok(c) => c,
+        Err(_) => return "cfgerr".into(),
+    };
+    let mut dump = vec![];
+    {
+        let c = conf.try_read().expect("harness: config lock");
+        for r in &c.dns_routes {
+            let d = format!("{:?}", r.dest);
+            let kind = if d.starts_with("Forward") {
+                // Forward([127.0.0.2:53])
+                let inner = d.trim_start_matches("Forward([").trim_end_matches("])");
+                let ips: Vec<String> = inner
+                    .split(", ")
+                    .filter(|x| !x.is_empty())
+                    .map(|x| {
+                        let sa: std::net::SocketAddr = x.parse().expect("harness: server addr");
+                        match sa.ip() {
+                            std::net::IpAddr::V4(a) => {
+                                crate::rig::upstream(a);
+                                u32::from(a).to_string()
+                            }
+                            std::net::IpAddr::V6(_) => "0".into(),
+                        }
+                    })
+                    .collect();
+                format!("F{}", if ips.is_empty() { "-".to_string() } else { ips.join(",") })
+            } else {
+                "N".to_string()
+            };
+            let sfx: Vec<String> = r.suffixes.iter().map(show_domain).collect();
+            dump.push(format!("{}!{}", kind, if sfx.is_empty() { "none".to_string() } else { sfx.join(",") }));
+        }
+    }
+    let mut q = base_query(0x1234, "x", 1);
+    q.question.qdomain = labels(kv(toks, "q"));
+    q.rd = kv(toks, "rd") == "1";
+    let msg = erbium::dns::DnsMessage {
+        in_query: q,
+        in_size: 40,
+        local_ip: std::net::IpAddr::V4(std::net::Ipv4Addr::LOCALHOST),
+        remote_addr: std::net::Ipv4Addr::LOCALHOST.with_port(40000),
+        protocol: erbium::dns::Protocol::Udp,
+    };
+    let rt = crate::rig::rt_real();
+    let res = rt.block_on(async {
+        let h = verif::RouteHandler::new(conf.clone()).await;
+        match tokio::time::timeout(std::time::Duration::from_secs(20), h.handle_query(&msg)).await {
+            Err(_) => "timeout".to_string(),
+            Ok(Ok(reply)) => match reply.answer.first().map(|rr| &rr.rdata) {
+                Some(dnspkt::RData::Other(v)) if v.len() == 4 => {
+                    format!("fwd:{}", u32::from(std::net::Ipv4Addr::new(v[0], v[1], v[2], v[3])))
+                }
+                _ => "fwd:?".into(),
+            },
+            Ok(Err(erbium::dns::Error::NotAuthoritative)) => "refused".into(),
+            Ok(Err(erbium::dns::Error::Blocked)) => "nxdomain".into(),
+            Ok(Err(erbium::dns::Error::NoRouteConfigured)) => "servfail".into(),
+            Ok(Err(e)) => format!("outerr:{}", e).replace(' ', "_"),
+        }
+    });
+    format!("routes={} res={}", if dump.is_empty() { "-".to_string() } else { dump.join("+") }, res)
+}
